@@ -42,6 +42,36 @@ theorem forward_value_for (t s dd tf ff fd K N : ℝ) (nc dn fn : Int) (hs : 0 <
     if_false, if_true, Bool.false_eq_true]
   exact ⟨_, rfl, rfl⟩
 
+/-- the value entry of the coded `FXForward.value` for a notional in the DOMESTIC currency: `value = (F − K)·(N/K)·df_dom`,
+the domestic value of the contract on `N/K` units of foreign currency (was `(F − K)·N·df·F` before /repo commit d214945). -/
+theorem forward_value_dom (t s dd tf ff fd K N : ℝ) (nc dn fn : Int) (hs : 0 < s) (ht : 0 ≤ t) (htf : 0 ≤ tf)
+    (hnc : nc = dn) (hne : dn ≠ fn) :
+    ∃ r, FXR.fx_forward_value t s dd tf ff fd K N nc dn fn = .ok r ∧ r.1 = (CIPForward s ff fd - K) * (N / K) * dd := by
+  subst hnc
+  have h1 : ¬ (s ≤ 0) := not_le.mpr hs
+  have h2 : ¬ (t < 0) := not_lt.mpr ht
+  simp only [FXR.fx_forward_value, forward_eq_spot_df_ratio tf s ff fd hs htf, h1, h2, hne, decide_false, decide_true,
+    if_false, if_true, Bool.false_eq_true]
+  exact ⟨_, rfl, rfl⟩
+
+/-- C10: **the value of a forward does not depend on the currency the notional is quoted in**: a domestic notional `N` and
+the foreign notional `N/K` (the same contract) have the same coded value — for all inputs, any strike (including 0, where
+both sides are the totalised 0-notional contract). -/
+theorem forward_notional_currency_consistent (t s dd tf ff fd K N : ℝ) (dn fn : Int) (hs : 0 < s) (ht : 0 ≤ t)
+    (htf : 0 ≤ tf) (hne : dn ≠ fn) :
+    (okv (FXR.fx_forward_value t s dd tf ff fd K N dn dn fn)).1 = (okv (FXR.fx_forward_value t s dd tf ff fd K (N / K) fn dn fn)).1 := by
+  obtain ⟨r1, e1, hr1⟩ := forward_value_dom t s dd tf ff fd K N dn dn fn hs ht htf rfl hne
+  obtain ⟨r2, e2, hr2⟩ := forward_value_for t s dd tf ff fd K (N / K) fn dn fn hs ht htf rfl (Ne.symm hne)
+  rw [e1, e2, okv_ok, okv_ok, hr1, hr2]
+
+/-- C10: with a DOMESTIC notional the coded value is `(N/K) ×` the spec's forward value (same-df hypothesis as below). -/
+theorem forward_value_dom_eq_spec_partial (t s tf ff fd K N : ℝ) (nc dn fn : Int) (hs : 0 < s) (ht : 0 ≤ t) (htf : 0 ≤ tf)
+    (hnc : nc = dn) (hne : dn ≠ fn) :
+    (okv (FXR.fx_forward_value t s fd tf ff fd K N nc dn fn)).1 = N / K * ForwardValue s K ff fd := by
+  obtain ⟨r, h, hr⟩ := forward_value_dom t s fd tf ff fd K N nc dn fn hs ht htf hnc hne
+  rw [h, okv_ok, hr]
+  simp only [ForwardValue]; ring
+
 /-- C10: a forward struck at the forward rate is worth zero — value and both cash views, either notional currency
 (proved from the generated text directly, so it does not depend on how the non-zero values are scaled). -/
 theorem forward_struck_at_forward_is_zero (t s dd tf ff fd N : ℝ) (nc dn fn : Int) (hs : 0 < s) (ht : 0 ≤ t)
